@@ -50,6 +50,8 @@ def catalogue(dep: dict, r) -> List[Tuple[str, str, List[Tuple[int, int]]]]:
         if kind == "number":
             out.append(("invalid-number", f'<newNumberVector device="{d}" name="{n}"><oneNumber name="{e1}">12abc</oneNumber></newNumberVector>', []))
             out.append(("odd-number", f'<newTextVector device="{d}" name="{n}"><oneText name="{e1}">1e400x</oneText></newTextVector>', []))
+            for odd in ("nan", "inf", "-Infinity", "1e5", "0x10"):
+                out.append(("odd-number", f'<newTextVector device="{d}" name="{n}"><oneText name="{e1}">{odd}</oneText></newTextVector>', []))
         if kind == "blob":
             out.append(("blob-bad-base64", f'<newBLOBVector device="{d}" name="{n}"><oneBLOB name="{e1}" size="3" format=".x">!!!not base64</oneBLOB></newBLOBVector>', []))
             out.append(("blob-wrong-size", f'<newBLOBVector device="{d}" name="{n}"><oneBLOB name="{e1}" size="99" format=".x">QUJD</oneBLOB></newBLOBVector>', []))
